@@ -180,7 +180,7 @@ def setup(asn4):
     return _W[asn4]
 
 
-def drive(asn4, body):
+def drive(asn4, body, reset=True):
     """-> (outcome kind, data): ('notify', (code, sub)) | ('nop', None) | ('update', (json message, rib table))"""
     from exabgp.bgp.message import Notify
     from exabgp.bgp.message.update.attribute.collection import AttributeCollection
@@ -191,8 +191,9 @@ def drive(asn4, body):
     from exabgp.rib.incoming import IncomingRIB
 
     n, neg = setup(asn4)
-    if hasattr(AttributeCollection, 'cached'):
+    if reset and hasattr(AttributeCollection, 'cached'):
         AttributeCollection.cached = None
+        AttributeCollection.previous = b''
     n.rib.incoming = IncomingRIB(True, n.rib.incoming.families)
     peer = _Peer(n)
     result = {}
@@ -385,6 +386,17 @@ def worker(args):
                     case = {'asn4': asn4, 'seed': seed, 'pos': pos, 'idx': idx, 'kind': kind}
                     v = res['viol'].get(sig)
                     res['viol'][sig] = (what + f' [seed {seed} asn4 {asn4} position {pos}] body {body.hex()[:120]}...', case, (v[2] if v else 0) + 1) if v is None else (v[0], v[1], v[2] + 1)
+                # the same malformed UPDATE again, after a good one and itself, with the process-wide attribute cache left
+                # as the daemon leaves it: the verdict must not depend on what was decoded before
+                drive(asn4, body0, reset=True)
+                drive(asn4, body, reset=False)
+                out2, data2, events2 = drive(asn4, body, reset=False)
+                res['exec'] += 1
+                for sig, what in judge(seed, asn4, code, kind, overrun, out2, data2, events2):
+                    sig = 'repeated:' + sig
+                    case = {'asn4': asn4, 'seed': seed, 'pos': pos, 'idx': idx, 'kind': kind, 'repeat': True}
+                    v = res['viol'].get(sig)
+                    res['viol'][sig] = (what + f' [the UPDATE was decoded after a good one and a first copy of itself; seed {seed} asn4 {asn4} position {pos}]', case, 1) if v is None else (v[0], v[1], v[2] + 1)
                 if len(res['samples']) < 1 and out == 'notify':
                     res['samples'].append({'seed': seed, 'attribute': code, 'kind': kind, 'position': pos, 'outcome': [out, list(data)]})
     res['outcomes'] = dict(('|'.join(map(str, k)), v) for k, v in res['outcomes'].items())
@@ -441,6 +453,12 @@ def replay(case):
     for kind, attr_bytes, overrun in corruptions(tl, j):
         if kind == case['kind']:
             body = w.encode_update(attrs=attr_bytes, nlri=SEEDS[seed]['nlri'])
+            if case.get('repeat'):
+                body0 = w.encode_update(attrs=[w.encode_attr(c, v, flags=f) for c, f, v in base], nlri=SEEDS[seed]['nlri'])
+                drive(asn4, body0, reset=True)
+                drive(asn4, body, reset=False)
+                out, data, events = drive(asn4, body, reset=False)
+                return [{'signature': 'repeated:' + s, 'what': wh} for s, wh in judge(seed, asn4, base[idx][0], kind, overrun, out, data, events)]
             out, data, events = drive(asn4, body)
             return [{'signature': s, 'what': wh} for s, wh in judge(seed, asn4, base[idx][0], kind, overrun, out, data, events)]
     return []
